@@ -8,6 +8,7 @@ import (
 	"encoding/json"
 	"fmt"
 	"sort"
+	"sync"
 	"time"
 
 	"go.sia.tech/core/consensus"
@@ -127,6 +128,7 @@ type AbsTx struct {
 	Fnd   string            `json:"fnd"`
 	Fauth string            `json:"fauth"`
 	Tag   string            `json:"tag"`
+	Slack int               `json:"slack"`
 }
 
 // UnmarshalJSON accepts both a contract record and the NULL placeholder.
@@ -171,12 +173,14 @@ type Step struct {
 
 // Keyring maps abstract address and key names to real key material.
 type Keyring struct {
-	sk map[string]types.PrivateKey
+	sk    map[string]types.PrivateKey
+	mu    sync.Mutex
+	names map[types.Address]string
 }
 
 // NewKeyring derives deterministic keys for the given names.
 func NewKeyring() *Keyring {
-	k := &Keyring{sk: map[string]types.PrivateKey{}}
+	k := &Keyring{sk: map[string]types.PrivateKey{}, names: map[types.Address]string{}}
 	for i, n := range []string{"A", "B", "C", "F", "M", "R", "H", "X", "Y"} {
 		seed := make([]byte, 32)
 		seed[0] = byte(i + 1)
@@ -188,7 +192,7 @@ func NewKeyring() *Keyring {
 
 // SK returns the private key of a name.
 func (k *Keyring) SK(n string) types.PrivateKey {
-	sk, ok := k.sk[n]
+	sk, ok := k.sk[keyName(n)]
 	if !ok {
 		panic("chain: unknown key " + n)
 	}
@@ -198,8 +202,39 @@ func (k *Keyring) SK(n string) types.PrivateKey {
 // PK returns the public key of a name.
 func (k *Keyring) PK(n string) types.PublicKey { return k.SK(n).PublicKey() }
 
-// UC returns the standard v1 unlock conditions of an address name.
-func (k *Keyring) UC(n string) types.UnlockConditions { return types.StandardUnlockConditions(k.PK(n)) }
+// Lock names: "T<h>" is owner A behind v1 unlock conditions with timelock h (spendable by v1 inputs and by v2
+// inputs revealing the unlock-conditions policy); "P<h>" is the v2 policy thresh(2,[above(h), pk(A)]);
+// "Q<t>" is thresh(2,[after(GenesisTime+t s), pk(A)]).
+func lockOf(n string) (kind byte, v uint64, ok bool) {
+	if len(n) < 2 || (n[0] != 'T' && n[0] != 'P' && n[0] != 'Q') {
+		return 0, 0, false
+	}
+	for _, ch := range n[1:] {
+		if ch < '0' || ch > '9' {
+			return 0, 0, false
+		}
+		v = v*10 + uint64(ch-'0')
+	}
+	return n[0], v, true
+}
+
+// keyName is the name of the key that signs for an address name.
+func keyName(n string) string {
+	if _, _, ok := lockOf(n); ok {
+		return "A"
+	}
+	return n
+}
+
+// UC returns the v1 unlock conditions of an address name.
+func (k *Keyring) UC(n string) types.UnlockConditions {
+	if kind, v, ok := lockOf(n); ok && kind == 'T' {
+		uc := types.StandardUnlockConditions(k.PK("A"))
+		uc.Timelock = v
+		return uc
+	}
+	return types.StandardUnlockConditions(k.PK(keyName(n)))
+}
 
 // Addr returns the address of a name ("V" is the void address). The address of an owner is the
 // hash of its standard unlock conditions, so it can be spent by v1 inputs and by v2 inputs that
@@ -208,21 +243,39 @@ func (k *Keyring) Addr(n string) types.Address {
 	if n == "V" {
 		return types.VoidAddress
 	}
-	return k.UC(n).UnlockHash()
+	a := k.Policy(n).Address()
+	k.mu.Lock()
+	k.names[a] = n
+	k.mu.Unlock()
+	return a
 }
 
 // Policy returns the v2 spend policy of an address name.
 func (k *Keyring) Policy(n string) types.SpendPolicy {
+	if kind, v, ok := lockOf(n); ok {
+		switch kind {
+		case 'P':
+			return types.PolicyThreshold(2, []types.SpendPolicy{types.PolicyAbove(v), types.PolicyPublicKey(k.PK("A"))})
+		case 'Q':
+			return types.PolicyThreshold(2, []types.SpendPolicy{types.PolicyAfter(GenesisTime.Add(time.Duration(v) * time.Second)), types.PolicyPublicKey(k.PK("A"))})
+		}
+	}
 	return types.SpendPolicy{Type: types.PolicyTypeUnlockConditions(k.UC(n))}
 }
 
-// NameOf is the inverse of Addr over the known names.
+// NameOf is the inverse of Addr over the names used so far.
 func (k *Keyring) NameOf(a types.Address) string {
 	if a == types.VoidAddress {
 		return "V"
 	}
+	k.mu.Lock()
+	n, ok := k.names[a]
+	k.mu.Unlock()
+	if ok {
+		return n
+	}
 	for n := range k.sk {
-		if k.Addr(n) == a {
+		if k.Policy(n).Address() == a {
 			return n
 		}
 	}
